@@ -331,7 +331,40 @@ func tIdx(off, i T) T {
 	if ok1 && ok2 {
 		return tAdd(off, i)
 	}
+	// canonical form: idx(base, delta + i) where base is the leftmost atom of the offset sum, so
+	// that every address into the same memory shares its first argument (quantifier triggers
+	// over idx(base, _) then match whatever view the access went through)
+	if canonicalIdx {
+		base, delta := splitBase(off)
+		if delta != "0" {
+			return app("idx", base, tAdd(delta, i))
+		}
+	}
 	return app("idx", off, i)
+}
+
+// canonicalIdx: experimental canonical addressing (off by default: it makes axioms quantified
+// over a bound offset instantiate to non-canonical terms)
+var canonicalIdx = os.Getenv("GOVC_CANONICAL_IDX") != ""
+
+// splitBase decomposes (+ (+ a b) c) into a and (+ b c); atoms and non-sums have delta 0.
+func splitBase(off T) (T, T) {
+	if !strings.HasPrefix(off, "(+ ") {
+		return off, "0"
+	}
+	parts := splitTop(off[1 : len(off)-1])
+	if len(parts) < 3 {
+		return off, "0"
+	}
+	base, d0 := splitBase(parts[1])
+	delta := d0
+	for _, p := range parts[2:] {
+		delta = tAdd(delta, p)
+	}
+	if _, isn := isNum(base); isn {
+		return off, "0"
+	}
+	return base, delta
 }
 
 const idxDecl = "(declare-fun idx (Int Int) Int)\n(assert (forall ((idx_o Int) (idx_i Int)) (! (= (idx idx_o idx_i) (+ idx_o idx_i)) :pattern ((idx idx_o idx_i)))))\n"
